@@ -408,3 +408,128 @@ def step (s : IOState) (ws : List String) : IOState × String :=
   | _ => (s, "bad-op")
 
 end Obs
+
+/-! ### the multi-agent dict loops (round 5): ordered association lists agent → value, the per-leaf `preprocess`
+as a function parameter; `kerr` is the error of a missing key (`KeyError`) -/
+namespace Obs
+
+/-- `d[k]` / `d.get(k)` on an ordered association list -/
+def alookup {V} (k : String) : List (String × V) → Option V
+  | [] => none
+  | (k', v) :: r => if k' = k then some v else alookup k r
+
+/-- `d[k] = v` (an existing key keeps its place, a new key goes last) -/
+def aset {V} (k : String) (v : V) : List (String × V) → List (String × V)
+  | [] => [(k, v)]
+  | (k', v') :: r => if k' = k then (k, v) :: r else (k', v') :: aset k v r
+
+def akeys {V} (d : List (String × V)) : List String := d.map (·.1)
+
+/-- `{k: v for k in ks}` -/
+def aofKeys {V} (ks : List String) (v : V) : List (String × V) := ks.foldl (fun d k => aset k v d) []
+
+def insertByPos (x : String × Nat) : List (String × Nat) → List (String × Nat)
+  | [] => [x]
+  | y :: r => if x.2 < y.2 then x :: y :: r else y :: insertByPos x r
+
+/-- `sorted(keys, key=self._agent_position)` (stable) -/
+def sortByPos (ids keys : List String) : List String :=
+  ((keys.map (fun k => (k, agentPosition ids k))).foldl (fun acc x => insertByPos x acc) []).map (·.1)
+
+/-- the loop of `MultiAgentRLAlgorithm.preprocess_observation`: agent `a`'s observation with agent `a`'s space -/
+def maPrepLoop {ε O S P} (kerr : ε) (spaces : List (String × S)) (prep : O → Option S → Except ε P)
+    (obs : List (String × O)) : List String → List (String × P) → Except ε (List (String × P))
+  | [], acc => .ok acc
+  | a :: r, acc =>
+    match alookup a obs with
+    | none => .error kerr
+    | some o =>
+      match prep o (alookup a spaces) with
+      | .error e => .error e
+      | .ok v => maPrepLoop kerr spaces prep obs r (aset a v acc)
+
+/-- `MultiAgentRLAlgorithm.preprocess_observation` -/
+def maPreprocess {ε O S P} (kerr : ε) (ids : List String) (spaces : List (String × S))
+    (prep : O → Option S → Except ε P) (obs : List (String × O)) : Except ε (List (String × P)) :=
+  maPrepLoop kerr spaces prep obs (sortByPos ids (akeys obs)) []
+
+/-- the seeded variant: the space of ONE fixed agent for everybody -/
+def maPreprocessFixedSpace {ε O S P} (kerr : ε) (ids : List String) (spaces : List (String × S)) (a0 : String)
+    (prep : O → Option S → Except ε P) (obs : List (String × O)) : Except ε (List (String × P)) :=
+  maPrepLoop kerr spaces (fun o _ => prep o (alookup a0 spaces)) obs (sortByPos ids (akeys obs)) []
+
+/-- the loop of `sum_shared_rewards` -/
+def sumSharedLoop {ε R} [Add R] (kerr : ε) : List (String × R) → List (String × R) → Except ε (List (String × R))
+  | [], acc => .ok acc
+  | (a, r) :: rest, acc =>
+    match alookup (homoId a) acc with
+    | none => .error kerr
+    | some s => sumSharedLoop kerr rest (aset (homoId a) (s + r) acc)
+
+/-- `sum_shared_rewards` -/
+def sumShared {ε R} [Add R] [OfNat R 0] (kerr : ε) (shared : List String) (rewards : List (String × R)) :
+    Except ε (List (String × R)) :=
+  sumSharedLoop kerr rewards (aofKeys shared 0)
+
+/-- first loop of `IPPO.preprocess_observation`: every agent's prepared observation is appended to its group -/
+def ippoPrepLoop {ε O S P} (kerr : ε) (spaces : List (String × S)) (prep : O → Option S → Except ε P)
+    (obs : List (String × O)) : List String → List (String × List P) → Except ε (List (String × List P))
+  | [], acc => .ok acc
+  | a :: r, acc =>
+    match alookup a obs with
+    | none => .error kerr
+    | some o =>
+      match alookup (homoId a) acc with
+      | none => .error kerr
+      | some l =>
+        match prep o (alookup a spaces) with
+        | .error e => .error e
+        | .ok v => ippoPrepLoop kerr spaces prep obs r (aset (homoId a) (l ++ [v]) acc)
+
+/-- second loop: concatenate each group -/
+def ippoConcatLoop {ε P} (kerr : ε) (concat : List P → Except ε (List P)) :
+    List String → List (String × List P) → Except ε (List (String × List P))
+  | [], acc => .ok acc
+  | g :: r, acc =>
+    match alookup g acc with
+    | none => .error kerr
+    | some l =>
+      match concat l with
+      | .error e => .error e
+      | .ok c => ippoConcatLoop kerr concat r (aset g c acc)
+
+/-- `IPPO.preprocess_observation` -/
+def ippoPreprocess {ε O S P} (kerr : ε) (ids shared : List String) (spaces : List (String × S))
+    (prep : O → Option S → Except ε P) (concat : List P → Except ε (List P)) (obs : List (String × O)) :
+    Except ε (List (String × List P)) :=
+  match ippoPrepLoop kerr spaces prep obs (sortByPos ids (akeys obs)) (aofKeys shared []) with
+  | .error e => .error e
+  | .ok acc => ippoConcatLoop kerr concat shared acc
+
+/-- the loop of `IPPO.assemble_shared_inputs` over a list of agents `as` (the code: `self.agent_ids`; the code as
+found before the repair: the keys of the input) -/
+def assembleSharedLoop {ε E V} (kerr : ε) (stack : E → Except ε V) (input : List (String × E)) :
+    List String → List (String × List (String × V)) → Except ε (List (String × List (String × V)))
+  | [], acc => .ok acc
+  | a :: r, acc =>
+    match alookup a input with
+    | none => assembleSharedLoop kerr stack input r acc
+    | some x =>
+      match stack x with
+      | .error e => .error e
+      | .ok v =>
+        match alookup (homoId a) acc with
+        | none => .error kerr
+        | some g => assembleSharedLoop kerr stack input r (aset (homoId a) (aset a v g) acc)
+
+/-- `IPPO.assemble_shared_inputs` -/
+def assembleShared {ε E V} (kerr : ε) (ids shared : List String) (stack : E → Except ε V)
+    (input : List (String × E)) : Except ε (List (String × List (String × V))) :=
+  assembleSharedLoop kerr stack input ids (aofKeys shared [])
+
+/-- the variant that fills the groups in the order of the INPUT dictionary -/
+def assembleSharedInputOrder {ε E V} (kerr : ε) (shared : List String) (stack : E → Except ε V)
+    (input : List (String × E)) : Except ε (List (String × List (String × V))) :=
+  assembleSharedLoop kerr stack input (akeys input) (aofKeys shared [])
+
+end Obs
